@@ -1,18 +1,20 @@
-(* C10 - Copyright field line ranges locate exactly the field's content (partial: proved -
-   for EVERY text and the FINAL object (after renaming, merging of unknown paragraphs and folding
-   into an empty license): the ranges of fields with a non-empty value are within 1..#lines, have
-   start <= end, are disjoint and increasing in source order within and across paragraphs, and
-   each starts on the first content line of a field with a value and ends on the last line of
-   such a field (C10_final_object); where recorded ranges come from; that they are tight for the
-   field; the shift law for the whole object for every text in which each paragraph has a field
-   with a value; how ranges compose through merge and fold; and for EVERY text and the FINAL
-   object every word of the value of a field stands on a source line inside the range recorded
-   for that field (C10_words_in_range).  Not proved: the shift law for texts holding a paragraph
-   in which no field has a value (such a paragraph records no true range; decided by
-   co-execution and by the executable statement). *)
+(* C10 - Copyright field line ranges locate exactly the field's content.  Proved for EVERY text and
+   the FINAL object (after renaming of duplicates, merging of unknown paragraphs and folding of free
+   text into an empty license):
+   - C10_final_object: the ranges of fields with a non-empty value are within 1..#lines, have
+     start <= end, are disjoint and increasing in source order within and across paragraphs, and
+     each starts on the first content line of a field with a value and ends on the last line of
+     such a field;
+   - C10_words_in_range: every word of the value of a field stands on a source line inside the
+     range recorded for that field;
+   - C10_shift_every_text: k blank lines at the top leave types and dictionary forms as they are
+     and shift the range of every field with a value by exactly k;
+   and the per-field and per-step facts they are built from (where recorded ranges come from, that
+   they are tight for the field, how they compose through merge and fold, the literal shift of the
+   whole object when every paragraph has a field with a value). *)
 From Coq Require Import String.
 From Coq Require Import NArith List Bool Sorted.
-From DI Require Import Result PyStr Deb822 Debcon Copyright Deb822Facts CopyrightFacts RangeFacts Dep5Facts WordFacts ConserveFacts ShiftFacts RangeFinal RangeWords.
+From DI Require Import Result PyStr Deb822 Debcon Copyright Deb822Facts CopyrightFacts RangeFacts Dep5Facts WordFacts ConserveFacts ShiftFacts RangeFinal RangeWords ShiftGeneral.
 Import ListNotations.
 Open Scope N_scope.
 
@@ -56,6 +58,30 @@ Theorem C10_shift_whole_object : forall k t gs, groups t = Ok gs -> Forall (fun 
   from_text (repeat 10 k ++ t) = rmap (map (shift_para (N.of_nat k))) (from_text t).
 Proof. exact from_text_shift. Qed.
 Print Assumptions C10_shift_whole_object.
+
+(* EVERY text (also those holding paragraphs in which no field has a value, which record no true
+   range): inserting k blank lines at the top gives an object with the same paragraph types and the
+   same dictionary forms, in which the range of every field with a non-empty value is shifted by
+   exactly k.  vr p lists the ranges recorded in p for the names whose value is not empty
+   (final_ranges = flat_map vr). *)
+Theorem C10_shift_every_text : forall k t gs ps, groups t = Ok gs -> from_text t = Ok ps ->
+  exists ps', from_text (repeat 10 k ++ t) = Ok ps' /\
+    Forall2 (fun p p' => p_type p' = p_type p /\ para_to_dict p' = para_to_dict p /\
+                         vr p' = map (shift_rng (N.of_nat k)) (vr p)) ps ps'.
+Proof. exact from_text_shift_general. Qed.
+Print Assumptions C10_shift_every_text.
+
+Example C10_shift_every_text_nonvacuous :
+  let t := lit "Foo:
+
+Bar:
+
+License:
+
+junk text
+" in
+  rmap (map vr) (from_text t) = Ok [[]; [(7, 7)]] /\ rmap (map vr) (from_text (repeat 10 3 ++ t)) = Ok [[]; [(10, 10)]].
+Proof. vm_compute. split; reflexivity. Qed.
 
 (* how ranges compose: the merged unknown paragraph spans the merged paragraphs (smallest start,
    largest end, both attained) *)
